@@ -53,8 +53,8 @@ def run(ctx):
                'flag-1 points bias the plant by 0.5 e^2/ln10 dex: recovery is compared with the reference fitter on the same data, and the reference with the analytic bound')
     ctx.require_events('pipeline:run', 'recovered:rank1', 'text-row:checked', 'FitInfo.keep:post', 'Filter.rebin:post', 'FitInfo.filter_table:post',
                        'Source.from_ascii:post', 'Extinction.get_av:post')
-    ctx.require_regimes('mode:2d', 'mode:3d', 'style:v1', 'style:v2', 'exact-plant', 'noisy-plant', 'av0:at-bound', 'av0:interior')
-    n_pipe = 10 if ctx.quick else 70
+    ctx.require_regimes('mode:2d', 'mode:3d', 'style:v1', 'style:v2', 'exact-plant', 'noisy-plant', 'av0:at-bound', 'av0:interior', 'sources-per-file>1')
+    n_pipe = 10 if ctx.quick else 200
     ip = 0
     tries = 0
     while ip < n_pipe and tries < n_pipe * 4:
@@ -109,15 +109,11 @@ def run(ctx):
             ctx.rmdir(d)
             continue
         lo, hi = 0.0, float(rng.choice([5.0, 20.0]))
-        m0 = int(rng.integers(n_m))
-        a0 = float(rng.choice([lo, hi, rng.uniform(lo, hi), rng.uniform(lo, hi)]))
-        ctx_bound = a0 in (lo, hi)
         if mode == '2d':
             theta = np.ones(nf)
             dr = np.array([1.0, 2.0])
-            s0 = float(rng.uniform(-1.5, 1.5))
             logm = np.log10(conv[:, 0, :])
-            pred = logm[m0] + a0 * k - 2 * s0
+            dist = None
         else:
             dmin = float(gen.loguniform(rng, 0.2, 5))
             n_d = int(rng.integers(1, 9))
@@ -127,104 +123,130 @@ def run(ctx):
             L = np.log10(dr[1]) - np.log10(dr[0])
             nref = 1 if dr[0] == dr[1] else int(np.ceil(1 + L / step - 1e-12))
             dist = np.array([dr[0]]) if nref == 1 else 10 ** np.linspace(np.log10(dr[0]), np.log10(dr[1]), nref)
-            j0 = int(rng.choice([0, nref - 1, rng.integers(nref)]))
             logm = fitcheck.grid_logm(conv, truth.apertures, theta, dist)
-            pred = np.asarray(logm[m0, j0], float) + a0 * k
-            s0 = float(np.log10(dist[j0]))
-        e = float(rng.choice([0.0, 1e-3, 0.05, 0.3]))
-        ctx_e = 'exact-plant' if e == 0 else 'noisy-plant'
-        if e == 0:
-            valid = np.array([4] * nf)
-            flux = pred.copy()
-            err = np.full(nf, float(rng.choice([0.01, 0.05])))
-        else:
-            valid = np.array([1] * nf)
-            flux = 10.0 ** pred
-            err = flux * e * rng.uniform(0.5, 1.0, nf)
-        logf, sig, w = O.transform(valid, flux, err)
-        if mode == '2d':
-            a_ref, s_ref, chi_ref = reference_2d(logm, k, logf, w, lo, hi)
-            chi_all = None
-        else:
-            a_ref, jref, chi_ref, chi_all = reference_3d(logm, k, logf, w, lo, hi)
-            s_ref = np.log10(dist)[jref]
-        o = np.argsort(chi_ref)
-        margin = 1e-6 * (1 + chi_ref[o[0]]) + 1e-9
-        if o[0] != m0 or (n_m > 1 and chi_ref[o[1]] - chi_ref[o[0]] < 10 * margin + 1e-3):
-            ctx.regime('degenerate-regenerated')
+        # several planted sources per data file: the file is fitted by ONE fitter, source after source
+        plants = []
+        for isrc in range(int(rng.integers(1, 5))):
+            m0 = int(rng.integers(n_m))
+            a0 = float(rng.choice([lo, hi, rng.uniform(lo, hi), rng.uniform(lo, hi)]))
+            if mode == '2d':
+                s0 = float(rng.uniform(-1.5, 1.5))
+                pred = logm[m0] + a0 * k - 2 * s0
+            else:
+                j0 = int(rng.choice([0, len(dist) - 1, rng.integers(len(dist))]))
+                pred = np.asarray(logm[m0, j0], float) + a0 * k
+                s0 = float(np.log10(dist[j0]))
+            e = float(rng.choice([0.0, 1e-3, 0.05, 0.3]))
+            if e == 0:
+                valid = np.array([4] * nf)
+                flux = pred.copy()
+                err = np.full(nf, float(rng.choice([0.01, 0.05])))
+            else:
+                valid = np.array([1] * nf)
+                flux = 10.0 ** pred
+                err = flux * e * rng.uniform(0.5, 1.0, nf)
+            logf, sig, w = O.transform(valid, flux, err)
+            if mode == '2d':
+                a_ref, s_ref, chi_ref = reference_2d(logm, k, logf, w, lo, hi)
+                chi_all, jref = None, None
+            else:
+                a_ref, jref, chi_ref, chi_all = reference_3d(logm, k, logf, w, lo, hi)
+                s_ref = np.log10(dist)[jref]
+            o = np.argsort(chi_ref)
+            margin = 1e-6 * (1 + chi_ref[o[0]]) + 1e-9
+            degenerate = o[0] != m0 or (n_m > 1 and chi_ref[o[1]] - chi_ref[o[0]] < 10 * margin + 1e-3)
+            if not degenerate and mode == '3d':
+                srt = np.sort(chi_all[m0])       # distance ties for the planted model are free: regenerate
+                degenerate = len(srt) > 1 and srt[1] - srt[0] < 1e-9 * (1 + srt[0])
+            if degenerate:
+                ctx.regime('degenerate-regenerated')
+                continue
+            plants.append(dict(m0=m0, a0=a0, s0=s0, e=e, valid=valid, flux=flux, err=err, logf=logf, w=w, a_ref=a_ref, s_ref=s_ref,
+                               chi_ref=chi_ref, jref=jref, name='planted%d' % len(plants)))
+        if not plants:
             ctx.rmdir(d)
             continue
-        if mode == '3d' and chi_all is not None:
-            # distance ties for the planted model: regenerate (ties are free)
-            srt = np.sort(chi_all[m0])
-            if len(srt) > 1 and srt[1] - srt[0] < 1e-9 * (1 + srt[0]):
-                ctx.regime('degenerate-regenerated')
-                ctx.rmdir(d)
-                continue
+        if len(plants) > 1:
+            ctx.regime('sources-per-file>1')
         data = os.path.join(d, 'data.txt')
-        open(data, 'w').write(gen.source_line('planted', valid, flux, err, 1.0, 2.0) + '\n')
+        open(data, 'w').write(''.join(gen.source_line(p_['name'], p_['valid'], p_['flux'], p_['err'], 1.0, 2.0) + '\n' for p_ in plants))
         out = os.path.join(d, 'fit.out')
         sel = [('A', 0), ('N', 1), ('N', 3), ('F', 1e3), ('D', 1e6)][int(rng.integers(5))]
-        wit = dict(wit0, planted=(names[m0], a0, s0), e=e, selector=sel, valid=valid, flux=flux, error=err, av_range=(lo, hi),
-                   filters=[f.name for f in filters], central=cen, distance_range=dr)
+        oc = bool(rng.random() < 0.5)
+        wit1 = dict(wit0, selector=sel, av_range=(lo, hi), filters=[f.name for f in filters], central=cen, distance_range=dr,
+                    n_sources=len(plants), output_convolved=oc)
+        wsel = [('N', 1), ('N', 3), ('A', 0)][int(rng.integers(3))]
         try:
             fit(data, [f.name for f in filters], theta * u.arcsec, md, out, n_data_min=1, extinction_law=law, av_range=(lo, hi),
-                distance_range=dr * u.kpc, output_format=sel, output_convolved=bool(rng.random() < 0.5))
+                distance_range=dr * u.kpc, output_format=sel, output_convolved=oc)
             fin = FitInfoFile(out, 'r')
-            rec = next(iter(fin))
+            recs = list(fin)
             fin.close()
             txt = os.path.join(d, 'pars.txt')
-            write_parameters(out, txt, select_format=[('N', 1), ('N', 3), ('A', 0)][int(rng.integers(3))])
+            write_parameters(out, txt, select_format=wsel)
         except Exception as exc:
-            ctx.violation('pipeline:raised:%s' % type(exc).__name__, 'the pipeline raised: %r' % (exc,), wit)
+            ctx.violation('pipeline:raised:%s' % type(exc).__name__, 'the pipeline raised: %r' % (exc,), wit1)
             ctx.rmdir(d)
             continue
         ctx.event('pipeline:run')
         ctx.regime('mode:' + mode)
         ctx.regime('style:' + style)
-        ctx.regime(ctx_e)
-        ctx.regime('av0:at-bound' if ctx_bound else 'av0:interior')
         ip += 1
-        ctx.case(('pipe', tries, ctx.shard), nontrivial=n_m >= 2, sample=dict(wit, rank1=str(rec.model_name[0]), chi2=float(rec.chi2[0])) if ip <= 2 else None)
-        # rank 1 is the planted model, with the reference fitter's numbers
-        r1 = str(rec.model_name[0]).strip()
-        if r1 != names[m0]:
-            ctx.violation('recovery:wrong-model-ranked-first', 'the planted model is not ranked first',
-                          dict(wit, rank1=r1, chi2_rank1=float(rec.chi2[0]), chi2_ref_planted=float(chi_ref[m0])))
+        ctx.case(('pipe', tries, ctx.shard), nontrivial=n_m >= 2,
+                 sample=dict(wit1, planted=[(names[p_['m0']], p_['a0'], p_['s0'], p_['e']) for p_ in plants],
+                             rank1=[str(r_.model_name[0]) for r_ in recs]) if ip <= 2 else None)
+        if len(recs) != len(plants):
+            ctx.violation('pipeline:record-count', 'the fit file does not hold one record per planted source', dict(wit1, records=len(recs)))
             ctx.rmdir(d)
             continue
-        ctx.event('recovered:rank1')
-        _, _, wts = logf, sig, w
-        gA = float(np.sum(w * np.abs(k - np.sum(w * k) / np.sum(w))) / np.sum(w * (k - np.sum(w * k) / np.sum(w)) ** 2)) if mode == '2d' \
-            else float(np.sum(w * np.abs(k)) / np.sum(w * k * k))
-        tolA = 1e-7 * (1 + abs(a_ref[m0])) + 3e-6 * gA          # float32 memmap for cube packages, 1e-9 convolution agreement
-        # chi^2: first-order effect of the accuracy delta of the model log-fluxes held by the fitter
-        # (float32 memmap for cube packages: fit() always memory-maps them; 1e-9 convolution agreement otherwise)
-        lm = np.asarray(logm[m0] if mode == '2d' else logm[m0, jref[m0]], float)
-        delta = 3e-7 * (1 + float(np.max(np.abs(lm)))) if style == 'v2' else 2e-9
-        resv = np.asarray(logf, float) - lm - a_ref[m0] * k + (2 * s_ref[m0] if mode == '2d' else 0.0)
-        ctol = 1e-9 * (1 + chi_ref[m0]) + float(np.sum(w * (2 * np.abs(resv) * delta + delta ** 2)))
-        tolA = 1e-7 * (1 + abs(a_ref[m0])) + 3 * delta * gA
-        if abs(float(rec.av[0]) - a_ref[m0]) > tolA or abs(float(rec.sc[0]) - s_ref[m0]) > (1e-12 if mode == '3d' else tolA) + 1e-9 or \
-                abs(float(rec.chi2[0]) - chi_ref[m0]) > ctol:
-            ctx.violation('recovery:differs-from-reference', 'rank-1 (chi^2, A_V, scale) differ from the reference fit of the same data',
-                          dict(wit, got=(float(rec.chi2[0]), float(rec.av[0]), float(rec.sc[0])), reference=(float(chi_ref[m0]), float(a_ref[m0]), float(s_ref[m0])),
-                               tolA=tolA, ctol=ctol))
-        # sanity of the oracle itself: the reference is within the analytic bias bound of the plant
-        bias = 0.5 * (np.max(err / np.maximum(np.abs(flux), 1e-300)) ** 2) / np.log(10) if e > 0 else 0.0
-        # 3-D with noisy photometry: the biased plant may sit one or two grid steps away, which A_V then compensates (2 dex per dex of distance)
-        slack = 0.0 if (mode == '2d' or e == 0) else 4 * step
-        if abs(a_ref[m0] - a0) > (bias + slack) * gA * 2 + 1e-6 or (mode == '3d' and abs(s_ref[m0] - s0) > slack / 2 + 1e-9):
-            ctx.inconclusive('oracle sanity failed: reference (%g, %g) vs plant (%g, %g), bias bound %g' % (a_ref[m0], s_ref[m0], a0, s0, bias * gA))
-        # the text row next to m is m's own parameter row
         lines = open(txt).read().split('\n')
-        tok = lines[4].split() if len(lines) > 4 else []
-        cols = list(params)
-        ok = len(tok) == 5 + len(cols) and tok[1] == names[m0] and all(c09.close3e(tok[5 + c], params[col][m0]) for c, col in enumerate(cols))
-        ctx.event('text-row:checked')
-        if not ok:
-            ctx.violation('text-row:not-the-planted-models-row', 'the parameter row printed next to the best fit is not the planted model\'s row of the parameter file',
-                          dict(wit, line=lines[4] if len(lines) > 4 else None, expected=[float(params[c][m0]) for c in cols]))
+        li = 3
+        for p_, rec in zip(plants, recs):
+            m0, a0, s0, e = p_['m0'], p_['a0'], p_['s0'], p_['e']
+            a_ref, s_ref, chi_ref, jref, w, logf = p_['a_ref'], p_['s_ref'], p_['chi_ref'], p_['jref'], p_['w'], p_['logf']
+            wit = dict(wit1, source=p_['name'], planted=(names[m0], a0, s0), e=e, valid=p_['valid'], flux=p_['flux'], error=p_['err'])
+            ctx.regime('exact-plant' if e == 0 else 'noisy-plant')
+            ctx.regime('av0:at-bound' if a0 in (lo, hi) else 'av0:interior')
+            # the block of this source in the text output
+            blk_hdr = lines[li].split() if li < len(lines) else []
+            nfits_txt = int(blk_hdr[2]) if len(blk_hdr) == 3 and blk_hdr[0] == p_['name'] else None
+            first_row = lines[li + 1] if nfits_txt else None
+            li += 1 + (nfits_txt or 0)
+            # rank 1 is the planted model, with the reference fitter's numbers
+            r1 = str(rec.model_name[0]).strip()
+            if r1 != names[m0]:
+                ctx.violation('recovery:wrong-model-ranked-first', 'the planted model is not ranked first',
+                              dict(wit, rank1=r1, chi2_rank1=float(rec.chi2[0]), chi2_ref_planted=float(chi_ref[m0])))
+                continue
+            ctx.event('recovered:rank1')
+            gA = float(np.sum(w * np.abs(k - np.sum(w * k) / np.sum(w))) / np.sum(w * (k - np.sum(w * k) / np.sum(w)) ** 2)) if mode == '2d' \
+                else float(np.sum(w * np.abs(k)) / np.sum(w * k * k))
+            # chi^2: first-order effect of the accuracy delta of the model log-fluxes held by the fitter
+            # (float32 memmap for cube packages: fit() always memory-maps them; 1e-9 convolution agreement otherwise)
+            lm = np.asarray(logm[m0] if mode == '2d' else logm[m0, jref[m0]], float)
+            delta = 3e-7 * (1 + float(np.max(np.abs(lm)))) if style == 'v2' else 2e-9
+            resv = np.asarray(logf, float) - lm - a_ref[m0] * k + (2 * s_ref[m0] if mode == '2d' else 0.0)
+            ctol = 1e-9 * (1 + chi_ref[m0]) + float(np.sum(w * (2 * np.abs(resv) * delta + delta ** 2)))
+            tolA = 1e-7 * (1 + abs(a_ref[m0])) + 3 * delta * gA
+            if abs(float(rec.av[0]) - a_ref[m0]) > tolA or abs(float(rec.sc[0]) - s_ref[m0]) > (1e-12 if mode == '3d' else tolA) + 1e-9 or \
+                    abs(float(rec.chi2[0]) - chi_ref[m0]) > ctol:
+                ctx.violation('recovery:differs-from-reference', 'rank-1 (chi^2, A_V, scale) differ from the reference fit of the same data',
+                              dict(wit, got=(float(rec.chi2[0]), float(rec.av[0]), float(rec.sc[0])), reference=(float(chi_ref[m0]), float(a_ref[m0]), float(s_ref[m0])),
+                                   tolA=tolA, ctol=ctol))
+            # sanity of the oracle itself: the reference is within the analytic bias bound of the plant
+            bias = 0.5 * (np.max(p_['err'] / np.maximum(np.abs(p_['flux']), 1e-300)) ** 2) / np.log(10) if e > 0 else 0.0
+            # 3-D with noisy photometry: the biased plant may sit one or two grid steps away, which A_V then compensates (2 dex per dex of distance)
+            slack = 0.0 if (mode == '2d' or e == 0) else 4 * step
+            if abs(a_ref[m0] - a0) > (bias + slack) * gA * 2 + 1e-6 or (mode == '3d' and abs(s_ref[m0] - s0) > slack / 2 + 1e-9):
+                ctx.inconclusive('oracle sanity failed: reference (%g, %g) vs plant (%g, %g), bias bound %g' % (a_ref[m0], s_ref[m0], a0, s0, bias * gA))
+            # the text row next to m is m's own parameter row
+            tok = first_row.split() if first_row else []
+            cols = list(params)
+            ok = len(tok) == 5 + len(cols) and tok[1] == names[m0] and all(c09.close3e(tok[5 + c], params[col][m0]) for c, col in enumerate(cols))
+            ctx.event('text-row:checked')
+            if not ok:
+                ctx.violation('text-row:not-the-planted-models-row', 'the parameter row printed next to the best fit is not the planted model\'s row of the parameter file',
+                              dict(wit, line=first_row, expected=[float(params[c][m0]) for c in cols]))
         c09.CUR.update(params=None)
         ctx.rmdir(d)
     if ip < n_pipe // 2:
